@@ -1,5 +1,5 @@
 (* Props_C08.v — C08: notifications faithfully mirror membership and connection state. *)
-From Foca Require Import Laws L_Lists MembersM L_Members L_MembersInv FocaM Inv Reach L_Mirror Concrete ConcreteLaws.
+From Foca Require Import Laws L_Lists MembersM L_Members L_MembersInv FocaM Inv Reach L_Mirror L_ConnCons Concrete ConcreteLaws.
 From Coq Require Import Permutation.
 
 Section C08.
@@ -87,6 +87,24 @@ Proof.
   exact (conj (adjust_idle s) (conj (adjust_stays_connected s) (conj (adjust_stays_idle s) (conj (adjust_undead s) (adjust_active s))))).
 Qed.
 
+(* "Idle exactly when the last active member disappears while active": every call that neither
+   panics nor aborts with an Encode error (a header that does not fit the packet size) ends with
+   Connected -> at least one active member; so a call that removes the last active member of a
+   connected instance ends idle, and by C08_call_mirrors the only way there is the Idle notification *)
+Theorem C08_call_ends_consistent (rnd : oracle) (f : @foca Id Addr HO) (i : @input Id) :
+  MU (mems f) -> (conn f = Connected -> 0 < num_active (mems f)) ->
+  let '(f', _, r, _) := step rnd f i in
+  match r with
+  | Panicked _ => True
+  | Failed e => e = EEncode \/ (conn f' = Connected -> 0 < num_active (mems f'))
+  | _ => conn f' = Connected -> 0 < num_active (mems f')
+  end.
+Proof. exact (step_cc rnd f i). Qed.
+
+Theorem C08_history_consistent (id0 : Id) (c0 : config) (h0 : hstate) (f : @foca Id Addr HO) :
+  ghist id0 c0 h0 f -> conn f = Connected -> 0 < num_active (mems f).
+Proof. exact (fun H => proj2 (ghist_cc id0 c0 h0 f H)). Qed.
+
 End C08.
 
 (* AccumulatingRuntime (runtime.rs): three FIFO queues; draining each yields the effects of
@@ -144,6 +162,8 @@ Print Assumptions C08_history_mirrors.
 Print Assumptions C08_replay_reconstructs_members.
 Print Assumptions C08_reachable_MU.
 Print Assumptions C08_adjust_exact.
+Print Assumptions C08_call_ends_consistent.
+Print Assumptions C08_history_consistent.
 Print Assumptions C08_accumulating_runtime_faithful.
 Print Assumptions C08_fresh_MU.
 Print Assumptions C08_example_history.
